@@ -291,7 +291,14 @@ class Normaliser:
         kws = {k.arg: k.value for k in e.keywords if k.arg}
         name = None
         d = dotted(fn)
-        if d is not None:
+        if d is not None and isinstance(fn, ast.Attribute) and d.split(".")[0] in self.env and d.split(".")[0] not in self._active and d.count(".") == 1 \
+                and fn.attr not in METHOD_SYNONYM:
+            # method call on an inlinable local: `rv.rvs(...)` with rv = ctor(...)  ->  `ctor(...).rvs(...)`
+            name = f"{self.rat(fn.value)}.{fn.attr}"
+            d = None
+        if name is not None:
+            pass
+        elif d is not None:
             q = self.qualify(d)
             if q in ABS:
                 name = "abs"
